@@ -53,7 +53,8 @@ PRESERVING = {"round", "int", "abs", "float", "otRound", "floor", "ceil", "_nudg
 
 class DimChecker:
     def __init__(self, model: Model, fi: FuncInfo, seeds: Dict[str, str], rets: Dict[str, object], ret: Optional[object] = None,
-                 sinks: Optional[Dict[str, str]] = None):
+                 sinks: Optional[Dict[str, str]] = None, params: Optional[Dict[str, List[Optional[str]]]] = None):
+        self.params = params or {}
         self.model = model
         self.fi = fi
         self.seeds = {k: parse_dim(v) for k, v in seeds.items()}
@@ -84,6 +85,9 @@ class DimChecker:
         txt = norm(e)
         if txt in self.seeds:
             return self.seeds[txt]
+        for suf, d in self.seeds.items():
+            if suf.startswith("*") and txt.endswith(suf[1:]):
+                return d
         if isinstance(e, ast.Constant):
             return ANY if isinstance(e.value, (int, float)) and not isinstance(e.value, bool) else UNKNOWN
         if isinstance(e, ast.Name):
@@ -115,8 +119,13 @@ class DimChecker:
                 for a in e.args[1:]:
                     d = self.same(d, self.ev(a), e, f"{fn}(...) operands")
                 return d
-            if fn in ("max", "min") and len(e.args) == 1 and isinstance(e.args[0], ast.GeneratorExp):
+            if fn in ("max", "min", "only", "util.only") and len(e.args) == 1 and isinstance(e.args[0], (ast.GeneratorExp, ast.SetComp, ast.ListComp)):
                 return self.ev(e.args[0].elt)
+            if tail in self.params:
+                for a, want in zip(e.args, self.params[tail]):
+                    got = self.ev(a)
+                    if want is not None:
+                        self.same(parse_dim(want), got, a, f"argument {short(a, 30)} of {tail}(...)")
             if tail in self.rets:
                 r = self.rets[tail]
                 # still evaluate arguments for nested checks
